@@ -3,6 +3,7 @@ from lib.facts import norm, direct_place, const_int
 from lib import tables
 from .C06 import POOL, worker, field_of_arg
 
+INLINE = True      # crate-local helpers the rules do not know by name are inlined into their callers (lib/inline.py)
 EXPLANATION = (
     "The three mechanisms the property names, as code-level necessary conditions: R07.1 thread::park is inside a natural "
     "loop that re-loads ref_count on every iteration (a spurious or stale token cannot end the wait; nothing else "
